@@ -1,0 +1,120 @@
+//go:build verif
+
+// Contracts checked by /verif (govc). Comments only; not part of any normal build.
+// The `layout` directive synthesises requires/ensures from /verif/specs/layouts (DESIGN.md section 3.4).
+
+package cmpp30
+
+//@ func (p *Connect) IEncode
+//@   theory T1
+//@   layout enc
+
+//@ func (p *Connect) IDecode
+//@   theory T1
+//@   layout dec
+
+//@ func (c *ConnectResp) IEncode
+//@   theory T1
+//@   layout enc
+
+//@ func (c *ConnectResp) IDecode
+//@   theory T1
+//@   layout dec
+
+//@ func (t *Terminate) IEncode
+//@   theory T1
+//@   layout enc
+
+//@ func (t *Terminate) IDecode
+//@   theory T1
+//@   layout dec
+
+//@ func (t *TerminateResp) IEncode
+//@   theory T1
+//@   layout enc
+
+//@ func (t *TerminateResp) IDecode
+//@   theory T1
+//@   layout dec
+
+//@ func (s *Submit) IEncode
+//@   theory T1
+//@   layout enc
+
+//@ func (s *Submit) IDecode
+//@   theory T1
+//@   layout dec
+
+//@ func (s *SubmitResp) IEncode
+//@   theory T1
+//@   layout enc
+
+//@ func (s *SubmitResp) IDecode
+//@   theory T1
+//@   layout dec
+
+//@ func (q *Query) IEncode
+//@   theory T1
+//@   layout enc
+
+//@ func (q *Query) IDecode
+//@   theory T1
+//@   layout dec
+
+//@ func (q *QueryResp) IEncode
+//@   theory T1
+//@   layout enc
+
+//@ func (q *QueryResp) IDecode
+//@   theory T1
+//@   layout dec
+
+//@ func (d *Deliver) IEncode
+//@   theory T1
+//@   layout enc
+
+//@ func (d *Deliver) IDecode
+//@   theory T1
+//@   layout dec
+
+//@ func (d *DeliverResp) IEncode
+//@   theory T1
+//@   layout enc
+
+//@ func (d *DeliverResp) IDecode
+//@   theory T1
+//@   layout dec
+
+//@ func (c *Cancel) IEncode
+//@   theory T1
+//@   layout enc
+
+//@ func (c *Cancel) IDecode
+//@   theory T1
+//@   layout dec
+
+//@ func (c *CancelResp) IEncode
+//@   theory T1
+//@   layout enc
+
+//@ func (c *CancelResp) IDecode
+//@   theory T1
+//@   layout dec
+
+//@ func (p *ActiveTest) IEncode
+//@   theory T1
+//@   layout enc
+
+//@ func (p *ActiveTest) IDecode
+//@   theory T1
+//@   layout dec
+
+//@ func (pr *ActiveTestResp) IEncode
+//@   theory T1
+//@   layout enc
+
+//@ func (pr *ActiveTestResp) IDecode
+//@   theory T1
+//@   layout dec
+
+// ---- hand-written below ----
